@@ -14,7 +14,7 @@ Ops (one answer line each):
 h <flat> <prog> -> <key>|none     ok
 prog cur|p0|p1|p2 <ctx-prog>      ok          seed program: current program (= ctx id) or fixed Pk::ID
 struct <sid> <const|none> <tys>   ok          must equal row <sid> of `structTable`
-vals <v>…                         ok          one token per field (decimal ints, hex keys/arrays)
+vals <v>…                         ok          one token per field (decimal ints, hex keys/arrays, true/false, v+v+… nested)
 seeds                             ok <s>,<s>,…            GetSeeds::seeds()
 key <key>                         ok          fresh `Seeded` around an account with that key
 vseeds | vbump <b>                ok | err:<class> | panic
@@ -26,12 +26,28 @@ cfind pK | ccreate pK <b>         ok <key> [<bump>] | err:<class> | panic
 namespace Account.Driver.C10
 open Common.Proto Account.Seeds
 
-inductive FieldTy
+inductive PrimTy
   | uint (w : Nat)
   | sint (w : Nat)
   | key
   | arr (n : Nat)
+  | bool
   deriving DecidableEq, Repr
+
+/-- A field is a primitive (`PackedValue<T>` counts as its `T`) or a padding-free nested `NoUninit`
+struct, written `n(t+t+…)` (`n()` = a unit struct). -/
+inductive FieldTy
+  | plain (t : PrimTy)
+  | nested (ts : List PrimTy)
+  deriving DecidableEq, Repr
+
+namespace FieldTy
+def uint (w : Nat) : FieldTy := .plain (.uint w)
+def sint (w : Nat) : FieldTy := .plain (.sint w)
+def key : FieldTy := .plain .key
+def arr (n : Nat) : FieldTy := .plain (.arr n)
+def bool : FieldTy := .plain .bool
+end FieldTy
 
 open FieldTy in
 /-- The seed structs declared in `harness/hx-seeds/src/structs.rs` (same ids, same order of fields,
@@ -73,7 +89,27 @@ def structTable : List (Nat × Option (List Nat) × List FieldTy) :=
     (28, some [], [uint 4]),
     (29, none, [key]),
     (30, none, [uint 8]),
-    (31, none, [uint 1, arr 0]) ]
+    (31, none, [uint 1, arr 0]),
+    (32, none, [bool]),
+    (33, some [112, 107], [uint 8, sint 2, uint 16]),
+    (34, none, [nested [.uint 4, .uint 2, .uint 2], uint 1]),
+    (35, none, [nested [.uint 1, .uint 8, .sint 4], nested [.uint 1, .uint 8, .sint 4]]),
+    (36, none, [uint 1, arr 0, uint 2]),
+    (37, none, [arr 0, uint 1]),
+    (38, none, [arr 0, arr 0]),
+    (39, some [], [uint 2, arr 0, key]),
+    (40, none, [nested [], uint 4]),
+    (41, none, [arr 31, arr 2]),
+    (42, none, [arr 1, key]),
+    (43, none, [arr 17, arr 17, arr 30]),
+    (44, none, [arr 3, arr 5]),
+    (45, none, [arr 5, arr 3]),
+    (46, none, [arr 8]),
+    (47, none, [arr 4, arr 0, arr 4]),
+    (48, none, List.replicate 14 key),
+    (49, none, List.replicate 15 key),
+    (50, some (List.replicate 32 7), [arr 32]),
+    (51, none, [arr 31, bool]) ]
 
 /-- `P0::ID`, `P1::ID`, `P2::ID` of the harness. -/
 def fixedProg (k : Nat) : List Nat := (List.range 32).map fun i => (k * 37 + i * 11 + 5) % 256
@@ -95,13 +131,14 @@ def tableH (t : List (List Nat × List Nat × Option (List Nat))) : Hash := fun 
 def complete (t : List (List Nat × List Nat × Option (List Nat))) (qs : List (List Nat × List Nat)) : Bool :=
   qs.all fun q => t.any fun e => e.1 == q.1 && e.2.1 == q.2
 
-def parseTy (s : String) : Option FieldTy :=
+def parsePrimTy (s : String) : Option PrimTy :=
   match s with
   | "u8" => some (.uint 1) | "u16" => some (.uint 2) | "u32" => some (.uint 4)
   | "u64" => some (.uint 8) | "u128" => some (.uint 16)
   | "i8" => some (.sint 1) | "i16" => some (.sint 2) | "i32" => some (.sint 4)
   | "i64" => some (.sint 8) | "i128" => some (.sint 16)
   | "key" => some .key
+  | "bool" => some .bool
   | _ =>
     match s.toList with
     | 'a' :: rest =>
@@ -110,10 +147,16 @@ def parseTy (s : String) : Option FieldTy :=
       | none => none
     | _ => none
 
+def parseTy (s : String) : Option FieldTy :=
+  if s.startsWith "n(" && s.endsWith ")" then
+    let inner := String.ofList ((s.toList.drop 2).dropLast)
+    if inner == "" then some (.nested []) else ((inner.splitOn "+").mapM parsePrimTy).map .nested
+  else (parsePrimTy s).map .plain
+
 def parseTys (s : String) : Option (List FieldTy) :=
   if s == "-" then some [] else (s.splitOn ",").mapM parseTy
 
-def parseVal (ty : FieldTy) (tok : String) : Option FieldVal :=
+def parsePrim (ty : PrimTy) (tok : String) : Option FieldVal :=
   match ty with
   | .uint w =>
     match tok.toNat? with
@@ -133,8 +176,24 @@ def parseVal (ty : FieldTy) (tok : String) : Option FieldVal :=
     match parseHex tok with
     | some bs => if bs.length == n then some (.arr bs) else none
     | none => none
+  | .bool => if tok == "true" then some (.bool true) else if tok == "false" then some (.bool false) else none
 
-def parseVals : List FieldTy → List String → Option (List FieldVal)
+def parsePrims : List PrimTy → List String → Option (List FieldVal)
+  | [], [] => some []
+  | ty :: tys, tok :: toks =>
+    match parsePrim ty tok, parsePrims tys toks with
+    | some v, some vs => some (v :: vs)
+    | _, _ => none
+  | _, _ => none
+
+/-- One field value: a primitive token, or `v+v+…` for a nested struct (`-` for a unit struct). -/
+def parseVal (ty : FieldTy) (tok : String) : Option (List FieldVal) :=
+  match ty with
+  | .plain t => (parsePrim t tok).map fun v => [v]
+  | .nested [] => if tok == "-" then some [] else none
+  | .nested ts => parsePrims ts (tok.splitOn "+")
+
+def parseVals : List FieldTy → List String → Option (List (List FieldVal))
   | [], [] => some []
   | ty :: tys, tok :: toks =>
     match parseVal ty tok, parseVals tys toks with
@@ -142,11 +201,15 @@ def parseVals : List FieldTy → List String → Option (List FieldVal)
     | _, _ => none
   | _, _ => none
 
-def showVal : FieldVal → String
+def showPrim : FieldVal → String
   | .uint _ v => toString v
   | .sint _ v => toString v
   | .key bs => toHex bs
   | .arr bs => toHex bs
+  | .bool b => if b then "true" else "false"
+
+def showVal (c : List FieldVal) : String :=
+  if c.isEmpty then "-" else "+".intercalate (c.map showPrim)
 
 def showList (xs : List String) : String :=
   if xs.isEmpty then "-" else ",".intercalate xs
